@@ -82,6 +82,13 @@ func vhTemplate(t int) (lit []uint8, dist []uint8) {
 		lit[97], lit[256], lit[257], lit[258] = 1, 2, 3, 3
 		lit = lit[:259]
 		dist = []uint8{3, 3, 3, 3, 3, 3, 3, 3}
+	case 17: // the length-258 symbol (285) and end-of-block on 15-bit codes: long-code table entries for length symbols
+		lit[97] = 1
+		for i := 0; i < 13; i++ {
+			lit[98+i] = uint8(2 + i)
+		}
+		lit[285], lit[256] = 15, 15
+		dist = []uint8{1, 1}
 	case 15: // distance code over-subscribed only by its 15-bit code
 		lit[97], lit[98], lit[256], lit[257], lit[258] = 2, 2, 2, 3, 3
 		lit = lit[:259]
@@ -222,6 +229,15 @@ func vhBuild(ctx int, s []byte) vhCtx {
 		vbStored(w2, true, []byte("XYZ"))
 		c.stream = append(c.stream, w2.bytes()...)
 		return c
+	case ctx == 7:
+		// a non-final stored block with symbolic LEN/NLEN/data, followed (inside the
+		// window) by whatever comes next: short stored blocks leave whole bytes in the bit buffer
+		w.bits(0, 1)
+		w.bits(0, 2)
+		p := w.bytes()
+		c.symStart = 8 * len(p)
+		c.stream = append(p, s...)
+		return c
 	case ctx == 4:
 		// final stored block: header concrete, LEN/NLEN/data symbolic
 		w.bits(1, 1)
@@ -333,11 +349,12 @@ func VerifRdOracle() {
 	s := verifrt.Bytes(n)
 	c := vhBuild(ctx, s)
 
-	strict := refInflate(c.stream, refOpts{strict: true, maxOut: M + c.preOut, symStart: c.symStart})
+	litCap := verifrt.Param("LITCAP")
+	strict := refInflate(c.stream, refOpts{strict: true, maxOut: M + c.preOut, symStart: c.symStart, litCap: litCap, capFrom: c.symStart, capTo: c.symStart + 8*n})
 	verifrt.Assume(strict.status != refTooLong && strict.status != refSkip)
 	perm := strict
 	if strict.status == refCorrupt {
-		perm = refInflate(c.stream, refOpts{strict: false, maxOut: M + c.preOut, symStart: c.symStart})
+		perm = refInflate(c.stream, refOpts{strict: false, maxOut: M + c.preOut, symStart: c.symStart, litCap: litCap, capFrom: c.symStart, capTo: c.symStart + 8*n})
 		verifrt.Assume(perm.status != refTooLong && perm.status != refSkip)
 	}
 
